@@ -290,6 +290,7 @@ func init() {
 	props["C01"] = func(x *Ctx) {
 		fns := []string{"Index", "Contains"}
 		x.limit = x.limit * 5 / 2
+		x.aliasedViews(fns)
 		x.pairsFor(fns, valid, 15000*x.scale)
 		x.ratioSweep(fns, false)
 		x.thresholdSweep(fns, streamValid, 80, 40)
@@ -298,12 +299,14 @@ func init() {
 		x.nearMissBlocks(fns)
 		x.siblingDecoys(fns)
 		x.straddleSS(fns)
+		x.nonLetterHead(fns)
 		x.specialPairContexts(fns)
 		x.pairsFor(fns, valid, 120000*x.scale)
 		relC01(x, 20000*x.scale)
 	}
 	props["C02"] = func(x *Ctx) {
 		fns := []string{"EqualFold"}
+		x.aliasedViews(fns)
 		// all single byte pairs
 		for a := 0; a < 256; a++ {
 			for b := 0; b < 256; b++ {
@@ -331,6 +334,7 @@ func init() {
 	}
 	props["C04"] = func(x *Ctx) {
 		fns := []string{"Compare", "EqualFold"}
+		x.aliasedViews(fns)
 		x.bytePairBlocks(fns)
 		x.offsetNeighbours(fns)
 		x.specialPairContexts(fns)
@@ -339,6 +343,7 @@ func init() {
 		relC04(x, 60000*x.scale)
 	}
 	props["C06"] = func(x *Ctx) {
+		x.aliasedViews(allSS)
 		x.ratioSweep(allSS, true)
 		x.pairsFor(allSS, ill, 12000*x.scale)
 		x.affixFor(allSS, ill, 6000*x.scale)
@@ -352,6 +357,8 @@ func init() {
 		x.guardedAPI()
 	}
 	props["C07"] = func(x *Ctx) {
+		x.aliasedViews(allSS)
+		x.nonLetterHead(allSS)
 		x.ratioSweep(allSS, true)
 		x.pairsFor(allSS, both, 12000*x.scale)
 		x.affixFor(allSS, both, 6000*x.scale)
@@ -364,6 +371,7 @@ func init() {
 	}
 	props["C08"] = func(x *Ctx) {
 		fns := []string{"LastIndex"}
+		x.aliasedViews(fns)
 		x.ratioSweep(fns, false)
 		x.thresholdSweep(fns, streamValid, 80, 40)
 		x.orbitPairsSS(fns)
@@ -371,16 +379,19 @@ func init() {
 		x.nearMissBlocks(fns)
 		x.siblingDecoys(fns)
 		x.straddleSS(fns)
+		x.nonLetterHead(fns)
 		x.specialPairContexts(fns)
 		x.pairsFor(fns, valid, 150000*x.scale)
 		relC08(x, 30000*x.scale)
 	}
 	props["C09"] = func(x *Ctx) {
 		fns := []string{"HasPrefix", "HasSuffix", "TrimPrefix", "TrimSuffix", "CutPrefix", "CutSuffix"}
+		x.aliasedViews(fns)
 		x.ratioSweep(fns, false)
 		x.nearMissBlocks(fns)
 		x.bytePairBlocks(fns)
 		x.fffdBait(fns)
+		x.nonLetterHead(fns)
 		x.specialPairContexts(fns)
 		x.affixFor(fns, valid, 60000*x.scale)
 		x.pairsFor(fns, valid, 20000*x.scale)
@@ -420,6 +431,7 @@ func init() {
 		}
 	}
 	props["C11"] = func(x *Ctx) {
+		x.aliasedViews([]string{"IndexAny", "LastIndexAny", "ContainsAny"})
 		x.anyFor(both, 150000*x.scale)
 		x.anyGrid()
 		x.anyCaseBit()
@@ -430,6 +442,7 @@ func init() {
 	}
 	props["C12"] = func(x *Ctx) {
 		fns := []string{"Count", "Cut"}
+		x.aliasedViews(fns)
 		x.ratioSweep(fns, false)
 		x.pairsFor(fns, valid, 120000*x.scale)
 		x.thresholdSweep(fns, streamValid, 60, 20)
@@ -437,6 +450,7 @@ func init() {
 		x.hashCollisions(fns)
 		x.siblingDecoys(fns)
 		x.straddleSS(fns)
+		x.nonLetterHead(fns)
 		x.specialPairContexts(fns)
 		for _, c := range "KkSsaZ1" { // single byte needles
 			for i := 0; i < 300*x.scale; i++ {
@@ -447,6 +461,7 @@ func init() {
 		}
 	}
 	props["C15"] = func(x *Ctx) {
+		x.aliasedViews(allSS)
 		x.ratioSweep(allSS, true)
 		x.pairsFor(allSS, ill, 12000*x.scale)
 		x.affixFor(allSS, ill, 6000*x.scale)
@@ -1048,6 +1063,94 @@ func (x *Ctx) specialPairContexts(fns []string) {
 		}
 	}
 	x.note("special-cased code points, every pair of a family at needle positions 0..3: %d cases", n)
+}
+
+// aliasedViews: the []byte functions called with arguments that SHARE memory (two prefixes of one buffer, two
+// suffixes, a window of the other argument) or that are short views with the REST of the other argument lying in
+// their spare capacity — a result must be a function of the bytes in [0, len) of each argument, never of where they
+// live or of what follows them; every call is compared with the same call on private copies
+func (x *Ctx) aliasedViews(fns []string) {
+	bufs := []string{"caf\u00e9", "\u212a", "\ufffd", "a\ufffd", "\ufffd\xff", "\u4e16\u754c", "kK\u212a", "\u017fs", "x\xe2\x84k", "Content-Length: 42",
+		"\U0001F600\u4e16", "ab", "\u00e9\u00c9", "ss\u00df", "\xff\xfe"}
+	for i := 0; i < 12; i++ {
+		a, _ := x.g.pair(streamValid)
+		if len(a) > 14 {
+			a = a[:14]
+		}
+		bufs = append(bufs, string(a))
+	}
+	n, bad := 0, 0
+	call := func(d *fnDef, sv, tv []byte) (res string) {
+		defer func() {
+			if e := recover(); e != nil {
+				res = "PANIC"
+			}
+		}()
+		return d.byt(sv, tv, 0)
+	}
+	for _, fn := range fns {
+		d := fnByName[fn]
+		if d == nil || d.kind != kSS {
+			continue
+		}
+		for _, bs := range bufs {
+			L := len(bs)
+			for a := 0; a <= L; a++ {
+				for b := 0; b <= L; b++ {
+					buf := []byte(bs)
+					// (views that share memory, the same bytes as private copies)
+					type pr struct {
+						s, t []byte
+						how  string
+					}
+					prs := []pr{
+						{buf[:a], buf[:b], "two prefixes of one buffer"},
+						{buf[a:], buf[b:], "two suffixes of one buffer"},
+					}
+					if a <= b {
+						prs = append(prs, pr{buf, buf[a:b], "the second argument is a window of the first"},
+							pr{buf[a:b], buf, "the first argument is a window of the second"},
+							pr{buf[:a:L], append([]byte{}, buf[:b]...), "the first argument is a short view; the rest of the second lies in its spare capacity"})
+					}
+					for _, p := range prs {
+						sc, tc := append([]byte{}, p.s...), append([]byte{}, p.t...)
+						want := call(d, sc, tc)
+						got := call(d, p.s, p.t)
+						n++
+						if got != want && bad < 5 {
+							bad++
+							x.relFail("relation", fn, &Case{Fn: fn, S: sc, T: tc},
+								fmt.Sprintf("bytcase.%s returns %s on these bytes as private copies but %s when %s (buffer %q, cut points %d and %d)", fn, want, got, p.how, bs, a, b))
+						}
+					}
+				}
+			}
+		}
+	}
+	x.note("[]byte arguments sharing memory / with the other argument's bytes in their spare capacity: %d calls compared with private copies", n)
+}
+
+// nonLetterHead: needles that begin with a long run of non-letter ASCII (1 .. 64 bytes: below, at and above the 32-byte
+// limits of the byte-exact fast paths) and end in something that folds, against haystacks that hold the needle re-cased
+// (so that a byte-exact search misses it), alone and behind an earlier byte-identical occurrence
+func (x *Ctx) nonLetterHead(fns []string) {
+	n := 0
+	for _, h := range []int{1, 2, 8, 16, 31, 32, 33, 40, 64} {
+		for _, fill := range []string{"-", "0123456789", "[]{}"} {
+			head := strings.Repeat(fill, h/len(fill)+1)[:h]
+			for _, tail := range [][2]string{{"a", "A"}, {"K", "k"}, {"\u00e9", "\u00c9"}, {"zz", "Zz"}, {"\u017f", "S"}, {"1a2", "1A2"}} {
+				nd := []byte(head + tail[0])
+				re := head + tail[1]
+				for _, hs := range []string{re, "xx" + re, re + "yy", head + tail[0] + " " + re, re + " " + head + tail[0], "q" + re + re + "q"} {
+					for _, fn := range fns {
+						x.eval(&Case{Fn: fn, S: []byte(hs), T: nd}, n%53 == 0)
+						n++
+					}
+				}
+			}
+		}
+	}
+	x.note("long non-letter heads (1..64 bytes) before a folding tail: %d cases", n)
 }
 
 // fffdBait: a literal U+FFFD in one argument opposite a multi-byte code point in the other, behind (or in
